@@ -4,6 +4,7 @@ import (
 	"bytes"
 	"encoding/json"
 	"fmt"
+	"strconv"
 	"strings"
 	"unicode/utf16"
 )
@@ -23,15 +24,17 @@ func builtinJSONParse(call FunctionCall) Value {
 		ctx.reviver = reviver
 	}
 
-	var root interface{}
-	err := json.Unmarshal([]byte(call.Argument(0).string()), &root)
-	if err != nil {
+	// Validate first (same acceptance and messages as before), then build the
+	// value from the token stream: properties are created in text order (ES5
+	// 15.12.2) and numbers beyond the double range become +-Infinity.
+	text := call.Argument(0).string()
+	var raw json.RawMessage
+	if err := json.Unmarshal([]byte(text), &raw); err != nil {
 		panic(call.runtime.panicSyntaxError(err.Error()))
 	}
-	value, exists := builtinJSONParseWalk(ctx, root)
-	if !exists {
-		value = Value{}
-	}
+	decoder := json.NewDecoder(strings.NewReader(text))
+	decoder.UseNumber()
+	value := builtinJSONParseToken(ctx, decoder)
 	if revive {
 		root := ctx.call.runtime.newObject()
 		root.put("", value, false)
@@ -75,34 +78,34 @@ func builtinJSONReviveWalk(ctx builtinJSONParseContext, holder *object, name str
 	return ctx.reviver.call(ctx.call.runtime, objectValue(holder), name, value)
 }
 
-func builtinJSONParseWalk(ctx builtinJSONParseContext, rawValue interface{}) (Value, bool) {
-	switch value := rawValue.(type) {
-	case nil:
-		return nullValue, true
-	case bool:
-		return boolValue(value), true
-	case string:
-		return stringValue(value), true
-	case float64:
-		return float64Value(value), true
-	case []interface{}:
-		arrayValue := make([]Value, len(value))
-		for index, rawValue := range value {
-			if value, exists := builtinJSONParseWalk(ctx, rawValue); exists {
-				arrayValue[index] = value
+func builtinJSONParseToken(ctx builtinJSONParseContext, decoder *json.Decoder) Value {
+	token, _ := decoder.Token() // the text is known to be valid
+	switch token := token.(type) {
+	case json.Delim:
+		if token == '[' {
+			arrayValue := []Value{}
+			for decoder.More() {
+				arrayValue = append(arrayValue, builtinJSONParseToken(ctx, decoder))
 			}
+			decoder.Token() //nolint:errcheck // ]
+			return objectValue(ctx.call.runtime.newArrayOf(arrayValue))
 		}
-		return objectValue(ctx.call.runtime.newArrayOf(arrayValue)), true
-	case map[string]interface{}:
 		obj := ctx.call.runtime.newObject()
-		for name, rawValue := range value {
-			if value, exists := builtinJSONParseWalk(ctx, rawValue); exists {
-				obj.put(name, value, false)
-			}
+		for decoder.More() {
+			name, _ := decoder.Token()
+			obj.put(name.(string), builtinJSONParseToken(ctx, decoder), false)
 		}
-		return objectValue(obj), true
+		decoder.Token() //nolint:errcheck // }
+		return objectValue(obj)
+	case json.Number:
+		number, _ := strconv.ParseFloat(string(token), 64) // +-Inf on overflow
+		return float64Value(number)
+	case string:
+		return stringValue(token)
+	case bool:
+		return boolValue(token)
 	}
-	return Value{}, false
+	return nullValue
 }
 
 type builtinJSONStringifyContext struct {
